@@ -244,15 +244,18 @@ def intrinsic(r):
             return "the caller received the payload produced for another call"
         if r["pay_kind"] == "W":
             return "a response carrying a different request ID was delivered"
-        if r["pay_att"] != r["attempts"]:
-            return "the caller received the reply to another attempt than its last one"
         if truncated(r):
             return "truncated payload"
     if have_stats(r):
-        for k, a in enumerate(r["accepted"]):
-            if a >= 1 and (k + 1 < r["attempts"] or r["class"] not in ("ok", "cancelled")):
-                return "a response accepted into the channel of attempt %d was not returned (class %s, %d attempts)" % (
-                    k + 1, r["class"], r["attempts"])
+        # (attempts are numbered by the responder in arrival order, which under load need not be the sending order: the clause
+        # does not assume that the accepted attempt is the last one in that numbering)
+        acc = [k + 1 for k, a in enumerate(r["accepted"]) if a >= 1]
+        if len(acc) > 1:
+            return "responses were accepted into the channels of %d attempts %s of one call: an accepted response was not returned" % (len(acc), acc)
+        if acc and r["class"] not in ("ok", "cancelled"):
+            return "a response accepted into the channel of attempt %d was not returned (class %s)" % (acc[0], r["class"])
+        if acc and r["class"] == "ok" and r["pay_att"] != acc[0]:
+            return "the caller received the reply of attempt %d although the accepted response is the one of attempt %d" % (r["pay_att"], acc[0])
     return None
 
 
